@@ -150,6 +150,38 @@ def run(ctx, rep):
             rep.ob("live", f"dropped:{stable(b.key)}", not bad, "every return path drops the ThreadPool (tokens returned)", b.file, b.line)
     rep.floor("live", "bodies holding a ThreadPool", n_holders, 2)
     # callers of run_in_subprocess-style exits after the pool was dropped are C17's business
+    # ---- the pool is never larger than the thread budget ------------------------------------------------------------------------
+    # rayon's default pool size is one worker per CPU; `use_current_thread()` alone does not limit it. Every ThreadPoolBuilder that
+    # reaches build_global()/build() must therefore carry an explicit num_threads whose argument is the budget (tokens + 1) or 1.
+    rep.rule("pool-size", "every rayon ThreadPoolBuilder built in libwild/wild has num_threads set, from available_threads (= acquired tokens + 1) or the constant 1")
+    n_pool = 0
+    for b_ in F.all_bodies:
+        if not b_.key.startswith(("libwild::", "<libwild::", "wild::")):
+            continue
+        fl_ = P.flow(b_)
+        for bi_, t_ in fl_.calls():
+            ck_ = callee_key(t_["f"]) or ""
+            if not (ck_.endswith("ThreadPoolBuilder::build_global") or ck_.endswith("ThreadPoolBuilder::build") or ck_.endswith("ThreadPoolBuilder::<S>::build_global") or ck_.endswith("ThreadPoolBuilder::<S>::build")):
+                continue
+            n_pool += 1
+            o_ = fl_.deep_origins(t_["args"][0])
+            nts = [x for x in o_ if x[0] == "call" and (x[1] or "").endswith("::num_threads")]
+            ok_ = False
+            why_ = "no num_threads call on this builder"
+            for x in nts:
+                tt = b_.blocks[x[2]]["t"]
+                ao = fl_.deep_origins(tt["args"][1]) if len(tt["args"]) > 1 else set()
+                consts = [y[1] for y in ao if y[0] == "const" and isinstance(y[1], int)]
+                from_budget = any(y[0] == "call" and (y[1] or "").endswith("NonZero::<T>::get") or (y[0] == "call" and (y[1] or "").split("::")[-1] == "get") for y in ao)
+                if from_budget or consts == [1]:
+                    ok_ = True
+                    why_ = "num_threads(" + ("available_threads" if from_budget else "1") + ")"
+                else:
+                    why_ = f"num_threads argument derives from {sorted(str(y)[:40] for y in ao)[:3]}"
+            rep.ob("pool-size", f"{stable(b_.key)}#{n_pool}", ok_, f"thread pool built with {why_}" + ("" if ok_ else
+                   ": rayon then starts one worker per CPU whatever the jobserver granted (wild uses more threads than tokens + 1)"), b_.file, t_["l"])
+    rep.floor("pool-size", "thread pools built", n_pool, 2)
+
     # ---- no signal disposition that kills the process without running destructors ---------------------------------------------
     # Tokens are written back by the Drop of jobserver::Acquired. The Rust runtime ignores SIGPIPE, so a write to a closed pipe is an
     # error (or a panic that unwinds through ThreadPool). Restoring a terminating default (signal(SIGPIPE, SIG_DFL), sigaction, raise,
